@@ -86,6 +86,12 @@ func (c *Ctx) WriteGen(name, content string) {
 	if err == nil && string(old) == content {
 		return
 	}
+	if os.Getenv("VERIF_NO_REGEN") != "" {
+		// alternate-tree run: never rewrite the shared table; the theorems proved over it no
+		// longer speak about this tree, which the caller treats as a broken proof obligation.
+		c.Mismatches = append(c.Mismatches, "generated table "+name+" differs from the one the theorems were checked over")
+		return
+	}
 	if err := os.WriteFile(path, []byte(content), 0o644); err != nil {
 		c.Mismatches = append(c.Mismatches, "cannot write "+path+": "+err.Error())
 		return
